@@ -196,6 +196,14 @@ def run_c17(rep):
     fam_style.string_level(rep, rep.seed, sizes(rep, 3000, 60000))
 
 
+def run_c11(rep):
+    import fam_total
+    n_seq, max_len, n_mut, depths = sizes(rep, (4000, 6, 1500, [5, 60, 300, 1020]), (120000, 8, 40000, [5, 60, 250, 400, 600, 1100, 1500]))
+    fam_total.total_family(rep, n_seq, max_len, n_mut, depths)
+    fam_total.include_cases(rep)
+    fam_total.component_family(rep, sizes(rep, 8000, 160000))
+
+
 # ------------------------------------------------------------------------------------------------ registry
 
 PROPS = {
@@ -428,6 +436,32 @@ PROPS = {
                    "dedented body) for all strings; that each of the dozen line classifiers applies the stripper and the "
                    "legacy/@ heads agree is decided by the style-vector oracle on the real compiler (partial: the line "
                    "classifiers themselves are not modelled)",
+    ),
+    "C11": dict(
+        theorems=["Bardic.Parser." + t for t in ["extractPassageParams_ok", "extractTargetAndArgs_ok", "parsePassageParams_ok",
+                                                  "validatePassageName_ok", "scanBrackets_ok", "multiline_ok", "pyNew_ok",
+                                                  "pyOld_consumed", "findClose_bound"]] + [T + "loopPaths_advance"],
+        run=run_c11,
+        rule="(a) line sequences (1-6, thorough 1-8 lines plus continuations) over a vocabulary of ~330 valid and broken forms "
+             "of every kind of line (headers, text with braces / inline conditionals, ~ statements with open brackets, "
+             "@py / <<py, @if / @elif / @else / @endif and legacy forms, @for, choices, jumps, @join, @hook, @render, @input, "
+             "@start, @metadata, @include, imports, comments, blanks) at 4 indentations; (b) 1-4 token-level mutations (delete / "
+             "duplicate / swap / truncate line, insert vocabulary line, delete or insert a special character, truncate file, "
+             "strip or add indentation) of every .bard file of the repository; (c) nesting probes (blocks, inline "
+             "conditionals, braces, brackets, parameter lists nested 5 … 1100 deep); (d) @include of a missing file, a cycle, "
+             "itself, a broken file, nothing, a directory, through compile_file; each compilation under a per-call timer, "
+             "the outcome classified by exception type AND by whether a raise statement of the compiler produced it; "
+             "(e) random inputs to eight parser components against their Lean models; distinct by hash of the text",
+        level_text="proof for the modelled components, every partial Python operation written as an explicit failure point: "
+                   "extract_passage_params, extract_target_and_args, _split_on_commas + parse_passage_params, "
+                   "validate_passage_name (for every Unicode character classification), extract_multiline_expression and both "
+                   "Python-block extractors never reach an internal error, use at least one (two) lines and stay inside the "
+                   "text (…_ok, multiline_ok, pyNew_ok, pyOld_consumed); loopPaths_advance — kernel-checked over the table of "
+                   "all 70 ways to reach the next iteration of the 11 while loops of the compiler, re-extracted by a "
+                   "must-analysis on every run: each advances the index. Partial: the remaining parser functions (block "
+                   "extractors' bodies, content tokenizer, choice validation) are not modelled — for them the claim rests on "
+                   "the extracted loop table and the search on the real compiler; CPython's wall-clock behaviour is observed by "
+                   "a timer, not modelled",
     ),
 }
 
